@@ -45,7 +45,7 @@ mod __verif_kani {
     }
     //@ kind=B props=C09 bound=buffer_len=53(32+16+5),start=0 fn=json_escape::{scalar,avx2,sse2,dispatch} stubs=_mm256_subs_epu8,_mm_subs_epu8 : every 53-byte buffer: each engine returns the first index >= 0 holding '"', '\\' or a byte < 0x20, else the length (one AVX2 iteration, one SSE2 step, scalar tail)
     scan_case!(c09_escape_scan_len53_from0, 53, 0);
-    //@ kind=B props=C09 bound=buffer_len=53,start=3 fn=json_escape::{scalar,avx2,sse2,dispatch} stubs=_mm256_subs_epu8,_mm_subs_epu8 : every 53-byte buffer scanned from offset 3 (unaligned start; matches before the start must be ignored)
+    //@ kind=B props=C09 tier=thorough bound=buffer_len=53,start=3 fn=json_escape::{scalar,avx2,sse2,dispatch} stubs=_mm256_subs_epu8,_mm_subs_epu8 : every 53-byte buffer scanned from offset 3 (unaligned start; matches before the start must be ignored)
     scan_case!(c09_escape_scan_len53_from3, 53, 3);
     //@ kind=B props=C09 bound=buffer_len=9,start_in_{9,12} fn=json_escape::{scalar,avx2,sse2,dispatch} stubs=_mm256_subs_epu8,_mm_subs_epu8 : start at or past the end returns the length
     scan_case!(c09_escape_scan_past_end, 9, 9);
